@@ -51,6 +51,14 @@ def cases(tier):
     for dims in ((1, 1, 1), (2, 1, 1), (3, 2, 1)):
         for j in range(3):
             out.append({"kind": "box", "dims": list(dims), "pl": pq[(sum(dims) + 3 * j) % 8]})
+    # "any rigid placement": mildly non-tangential / non-cyclic shapes very far from the origin (an existence
+    # test relative to the distance from the origin would accept them there)
+    for dims in ((1, 1, 1.02), (1, 1, 1.2), (1, 1, 1), (3, 2, 1)):
+        for far in (200.0, 2000.0):
+            out.append({"kind": "farbox", "dims": list(dims), "far": far})
+    for nm in ("rect-1x1.02", "rect-1x1.2", "square", "kite"):
+        for far in (200.0, 2000.0):
+            out.append({"kind": "farpoly", "name": nm, "far": far})
     polys = []
     for n in (3, 4, 5):
         for i, c in enumerate(A.p2_thin(n, 4)):
@@ -173,7 +181,7 @@ def run_vertex_based(case):
 
     rep = Report()
     kind = case["kind"]
-    three = kind in ("poly3", "tab3", "box")
+    three = kind in ("poly3", "tab3", "box", "farbox")
     lattice = None
     if kind == "poly3":
         lattice = [tuple(p) for p in case["pts"]]
@@ -188,6 +196,18 @@ def run_vertex_based(case):
         lattice = [(x, y, z) for x in (0, a) for y in (0, b) for z in (0, c)]
         F = A.apply_placement(case["pl"], np.array(lattice, float))
         cls = "ConvexPolyhedron"
+    elif kind == "farbox":
+        a, b, c = case["dims"]
+        base = np.array([(x, y, z) for x in (0, a) for y in (0, b) for z in (0, c)], float)
+        R = np.array(A.rot_matrix("q1234"))
+        F = base @ R.T + case["far"] * np.array([3.0, -2.0, 5.0]) / math.sqrt(38.0) * 1.7
+        cls = "ConvexPolyhedron" if case["far"] < 1000 else "Polyhedron"
+        lattice = None
+    elif kind == "farpoly":
+        base = {"rect-1x1.02": [(0, 0), (1, 0), (1, 1.02), (0, 1.02)], "rect-1x1.2": [(0, 0), (1, 0), (1, 1.2), (0, 1.2)], "square": [(0, 0), (1, 0), (1, 1), (0, 1)], "kite": [(0, 0), (2, -1), (5, 0), (2, 1)]}[case["name"]]
+        R = np.array(A.rot_matrix("q2-153"))
+        F = np.array([[x, y, 0.0] for x, y in base]) @ R.T + case["far"] * np.array([3.0, -2.0, 5.0]) / math.sqrt(38.0) * 1.5
+        cls = "ConvexPolygon"
     elif kind == "poly2":
         poly = [tuple(p) for p in case["poly"]]
         F, s, R, t = place(case, poly)
@@ -208,6 +228,8 @@ def run_vertex_based(case):
                 obj = S.ConvexPolyhedron(F.copy())
                 faces = [list(map(int, f)) for f in obj.faces] if lattice is None else [list(ext) for _, _, _, ext in X.hull_facets(lattice)]
             else:
+                if lattice is None:
+                    lattice = [tuple(int(round(x * 100)) for x in p) for p in base]  # farbox: exact structure from the unplaced box
                 faces = [list(ext) for _, _, _, ext in X.hull_facets(lattice)]
                 obj = S.Polyhedron(F.copy(), [np.array(f) for f in faces], faces_are_convex=True)
         else:
@@ -319,6 +341,10 @@ def run_vertex_based(case):
         dist = np.linalg.norm(V - c, axis=1)
         if np.max(np.abs(dist - r)) > 1e-7 * L:
             rep.violation("balls", cls, name, "returned-ball-violates-definition", case, "%s (r=%r) misses vertices by up to %.3g L (best-fit sphere deviates by %.3g L)" % (name, r, np.max(np.abs(dist - r)) / L, dev))
+        elif not three and abs(float(np.asarray(obj.normal, float) @ (c - V[0]))) > 1e-7 * L:
+            rep.violation("balls", cls, name, "centre-out-of-plane", case, "%s centre is %.3g L out of the polygon's plane (radius %r; the in-plane circumradius is %r)" % (name, abs(float(np.asarray(obj.normal, float) @ (c - V[0]))) / L, r, rr))
+        elif exists is True and abs(r - rr) > 1e-7 * L:
+            rep.violation("balls", cls, name, "wrong-radius", case, "%s radius %r, the sphere/circle through the vertices has radius %r" % (name, r, rr))
         else:
             rep.ok(name + ":exists")
     elif st == "RuntimeError":
@@ -362,7 +388,9 @@ def run_vertex_based(case):
     if st == "ok":
         c, r = ball_of(b)
         dd = np.array([d - float(n @ c) for n, d in planes])  # distance from centre to each face plane, inside positive
-        if convex and (np.max(np.abs(dd - r)) > 1e-7 * L or r <= 0):
+        if convex and not three and abs(float(nrm @ (c - V[0]))) > 1e-7 * L:
+            rep.violation("balls", cls, name, "centre-out-of-plane", case, "%s centre is %.3g L out of the polygon's plane" % (name, abs(float(nrm @ (c - V[0]))) / L))
+        elif convex and (np.max(np.abs(dd - r)) > 1e-7 * L or r <= 0):
             rep.violation("balls", cls, name, "returned-ball-violates-definition", case, "%s (r=%r) is not tangent to every face from inside: centre-to-face distances %s (tangential residual %.3g L)" % (name, r, np.round(dd, 9).tolist(), res))
         elif convex:
             rep.ok(name + ":exists")
